@@ -424,6 +424,7 @@ class IO:
         if pos is None:
             return False
         scale = [1.0] * tr.ndim if tr.scale is None else list(tr.scale)
+        scale[0] = 1.0  # the frame index is never stored scaled (D29)
         coord = [int(d[tr.features.time_key])] + list(pos)
         try:
             px = tuple(int(c * (1 / s)) for c, s in zip(coord, scale))
